@@ -13,6 +13,7 @@ From stdpp Require Import gmap.
 From Coq Require Import NArith ZArith.
 From P9 Require Import Model.Path Model.Session Model.FidSpec
   Proofs.SessionProofs Proofs.SessionGhost Proofs.SessionClauses.
+From P9 Require Gen.GenConsts.
 Open Scope N_scope.
 
 (* The session behaves like the reference fid table: same results, same final table,
@@ -35,6 +36,14 @@ Print Assumptions C08_step_refines.
 Theorem C08_reach_closed : ∀ s o ts, reach s → is_stop o = false → reach (sstep s o ts).1.1.
 Proof. exact reach_step. Qed.
 Print Assumptions C08_reach_closed.
+
+(* NOFID and the open-mode values the model uses (mode & 3 against 1 and 2) are the source's:
+   Gen/GenConsts.v is regenerated from /repo by the translator before every build *)
+Theorem C08_constants_match_source :
+  NOFID = GenConsts.c_NOFID ∧ GenConsts.c_OREAD = 0 ∧ GenConsts.c_OWRITE = 1 ∧
+  GenConsts.c_ORDWR = 2 ∧ GenConsts.c_OEXEC = 3.
+Proof. exact consts_match_source. Qed.
+Print Assumptions C08_constants_match_source.
 
 (* ---- the clauses of the property text ---- *)
 
